@@ -29,6 +29,10 @@ def make_obs(ctx):
                   timeout=900, remove_bodies=core.prune_cals(['ymd']),
                   bounds={'values': 'three date-only ymd values, any year, day 1..31'}))
 
+    obs.append(Ob('contract:fixup', H, 'h_contract_fixup', {'PART_CONTRACT': 1, 'SHAPE': 2}, units=UNITS, unwind=4, group='contract',
+                  timeout=600, remove_bodies=core.prune_cals(['ymd']),
+                  bounds={'values': 'date-only ymd, ymd date-time and time-only values, day 1..31'}))
+
     def uws(j):
         # one loop per function in dseq.c's iteration core; the increment stack has one or two entries
         return ['date_add.0:3', 'date_neg_dur.0:3', '__durstack_naught_p.0:3', '__seq_this.0:%d' % (j + 2), '__fixup_fst.0:%d' % (j + 3)]
